@@ -382,10 +382,13 @@ class Ctx:
         return None
 
     def violation(self, replay_obj, nofail=False, tag=None):
-        os.makedirs(os.path.join(ROOT, "replays"), exist_ok=True)
+        # replays of runs against another tree ($VERIF_REPO: seeded changes, the pre-fix tree) live in their own directory,
+        # so that they can never be mistaken for (or overwrite) replays of a run against /repo itself
+        rdir = "replays" if REPO == "/repo" else "replays/tree-" + hashlib.sha1(REPO.encode()).hexdigest()[:8]
+        os.makedirs(os.path.join(ROOT, rdir), exist_ok=True)
         n = len(self.violations) + 1
-        rel = "replays/%s-%s%d.json" % (self.pid, (tag + "-") if tag else "", n)
-        replay_obj = dict(replay_obj, property=self.pid, seed=self.seed, tier=self.tier,
+        rel = "%s/%s-%s%d.json" % (rdir, self.pid, (tag + "-") if tag else "", n)
+        replay_obj = dict(replay_obj, property=self.pid, seed=self.seed, tier=self.tier, repo=REPO,
                           no_failing_input_found=bool(nofail))
         with open(os.path.join(ROOT, rel), "w") as f:
             json.dump(replay_obj, f, indent=1, default=str)
